@@ -501,7 +501,10 @@ def gen_module(rng, k):
     pools = ("ordinary", "qualifier", "predeclared", "typelike", "case")
     if k % 3 == 1:
         pools = pools + ("template_locals",)       # harmless and harmful template names; harmful ones are excluded by the guards
-    g = gen_pkgs.Gen(rng, pools=pools, n_ifaces=(3, 6), n_methods=(0, 4))
+    # DenseGen: a fifth of the types mention one package several times through 1- and 2-argument generic instantiations in
+    # every position (map[box.Key]box.Box[unit.Meters]): a package reached only through type arguments must still be
+    # imported and qualified.  name_tuples=0: the X / X1 parameter-name tuples belong to C14's classes.
+    g = gen_pkgs.DenseGen(rng, dense=0.2, name_tuples=0.0, pools=pools, n_ifaces=(3, 6), n_methods=(0, 4))
     method_names = None
     if k % 5 == 4:                                  # a few method names inside the mocks' own API: outside the guarantee, counted
         method_names = ["Do", "Get", "Put", "Close", "List", "Watch", "Apply", "Len", "String", "Each", "unexp",
